@@ -263,6 +263,16 @@ pub fn run(args: &Args) {
             rpm::verif::set_large_file_threshold(*thr);
             for j in 0..args.num("stripped", 6) {
                 let mut cfg = gen_::rand_cfg(&mut rng, 4, 600);
+                if j == 1 {
+                    // many files: stripped entries carry the file index as 8 hex digits
+                    let mut used: Vec<String> = cfg.files.iter().map(|f| f.dest.trim_start_matches('.').to_string()).collect();
+                    for _ in 0..(12 + 7 * i) {
+                        let mut f = gen_::rand_file(&mut rng, &mut used, 40);
+                        f.mode = Some(0o100644);
+                        f.link = None;
+                        cfg.files.push(f);
+                    }
+                }
                 if cfg.files.is_empty() {
                     let mut used = vec![];
                     cfg.files.push(gen_::rand_file(&mut rng, &mut used, 50));
